@@ -96,20 +96,24 @@ Picked(p, S, r) == { p.uses[u].worker : u \in UsedOf(S, UsesOfReq(p, r)) }
 ---------------------------------------------------------------------------
 RECURSIVE Holds(_, _, _), HoldsOp(_, _, _), OpOpen(_, _, _), UnspecCon(_, _, _)
 
+\* the bound of a single-task constraint: an integer, or (value: Union[int, z3.ArithRef]) an expression over
+\* the times of other tasks (field vexpr)
+BoundOf(p, S, c) == IF "vexpr" \in DOMAIN c THEN EvalT(p, S, c.vexpr) ELSE c.value
+
 HoldsOp(p, S, o) == IF o.t = "con" THEN Holds(p, S, p.cons[o.i])
                     ELSE EvalB(p, S, o.e)
 
 Holds(p, S, c) ==
   CASE c.cls = "TaskStartAt" ->
-         S.sched[c.task] => S.s[c.task] = c.value
+         S.sched[c.task] => S.s[c.task] = BoundOf(p, S, c)
     [] c.cls = "TaskStartAfter" ->
-         S.sched[c.task] => IF c.kind = "strict" THEN S.s[c.task] > c.value
-                                                 ELSE S.s[c.task] >= c.value
+         S.sched[c.task] => IF c.kind = "strict" THEN S.s[c.task] > BoundOf(p, S, c)
+                                                 ELSE S.s[c.task] >= BoundOf(p, S, c)
     [] c.cls = "TaskEndAt" ->
-         S.sched[c.task] => S.e[c.task] = c.value
+         S.sched[c.task] => S.e[c.task] = BoundOf(p, S, c)
     [] c.cls = "TaskEndBefore" ->
-         S.sched[c.task] => IF c.kind = "strict" THEN S.e[c.task] < c.value
-                                                 ELSE S.e[c.task] <= c.value
+         S.sched[c.task] => IF c.kind = "strict" THEN S.e[c.task] < BoundOf(p, S, c)
+                                                 ELSE S.e[c.task] <= BoundOf(p, S, c)
     [] c.cls = "TaskPrecedence" ->
          \* either side may be a task group (before_g / after_g: index of the group constraint): the whole
          \* group, i.e. every scheduled member, lies before / after
@@ -258,6 +262,10 @@ UnspecCon(p, S, c) ==
     [] c.cls = "OptionalTasksDependency" ->
          \* docs: implication; docstring: equivalence
          IF S.sched[c.t2] /\ ~S.sched[c.t1] THEN {"dependency-iff-or-implies"} ELSE {}
+    [] c.cls \in {"TaskStartAt", "TaskStartAfter", "TaskEndAt", "TaskEndBefore"} ->
+         \* a symbolic bound that reads a time of a task that is not scheduled
+         IF "vexpr" \in DOMAIN c /\ S.sched[c.task] /\ Touches(p, S, c.vexpr)
+         THEN {"expression-over-unscheduled-task"} ELSE {}
     [] c.cls = "OptionalTaskConditionSchedule" ->
          IF Touches(p, S, c.cond) THEN {"expression-over-unscheduled-task"} ELSE {}
     [] c.cls = "ConstraintFromExpression" ->
